@@ -44,6 +44,10 @@ func c13build(kind int) *c13archive {
 	}
 	var specs []spec
 	switch {
+	case kind == -2:
+		// one entry that needs several rounds of the 4 MiB copy buffer
+		// (it is the LAST entry: nothing after it gives the reader another chance to notice a cancellation)
+		specs = []spec{{"pre", false, 100}, {"huge", false, 9 << 20}}
 	case kind < 0:
 		// more small files than the small-buffer pool holds (81), nothing else
 		for i := 0; i < 130; i++ {
@@ -408,6 +412,9 @@ func c13cases(env *core.Env) []c13case {
 	for r := 0; r < 3; r++ {
 		cs = append(cs, c13case{Part: "duplicate", Rep: r})
 	}
+	for r := 0; r < env.Pick(2, 8); r++ {
+		cs = append(cs, c13case{Part: "hugecancel", Rep: r})
+	}
 	return cs
 }
 
@@ -720,6 +727,18 @@ func c13run(env *core.Env, idx int) core.CaseResult {
 		res.Nontrivial = true
 	case "duplicate":
 		c13duplicate(cs, &res)
+	case "hugecancel":
+		// the caller cancels (or the stream fails) while an entry of 9 MiB is between two rounds of the big copy buffer
+		a = c13build(-2)
+		ctx, cancel := context.WithCancel(context.Background())
+		defer cancel()
+		huge := a.entries[1]
+		cut := huge.BodyOff + (4<<20 + 150<<10) + 512*(1+cs.Rep*997%4000) // somewhere in the second or third round
+		mode := []string{"cancel", "readerror"}[cs.Rep%2]
+		g := &gatedReader{a: a, cutAt: cut, mode: mode, cancel: cancel, pauseAt: huge.BodyOff, reached: make(chan struct{}), resume: make(chan struct{}), afterCut: make(chan struct{}), progress: &progress, stall: make(chan struct{}), cancelled: make(chan struct{})}
+		c13drive(a, g, nil, ctx, 2, r, &res, "C13|cut|"+mode+"|inside-body:huge", cs)
+		res.Nontrivial = true
+		res.Count("huge_entry_cuts", 1)
 	case "destfault":
 		// count the destination calls of a clean unpacking, then fail each in turn
 		clean := &faultDest{failAt: -1}
